@@ -12,7 +12,7 @@ if ! git -C "$sv/wt" apply "$dir/patch.diff"; then echo "PATCH DOES NOT APPLY"; 
 (cd "$sv/wt" && go build ./... ) || echo "BUILD FAILS"
 echo "existing-tests: $(cd "$sv/wt" && go test -vet=off -count=1 ./... 2>&1 | grep -c '^FAIL\|^---') failures"
 for id in "$@"; do
-  VERIF_REPO="$sv/wt" VERIF_OUT="$sv/out" VERIF_SCRATCH_BASE="$sv" /verif/bin/check "$id" --tier ${TIER:-quick} > "$sv/seed-$id.log" 2>&1
+  VERIF_REPO="$sv/wt" VERIF_OUT="$sv/out" VERIF_SCRATCH_BASE="$sv" ${VERIF_HOME:-/verif}/bin/check "$id" --tier ${TIER:-quick} > "$sv/seed-$id.log" 2>&1
   echo "check $id rc=$? : $(grep -c '^VIOLATION' "$sv/seed-$id.log") violations; $(grep '^VIOLATION' -A1 "$sv/seed-$id.log" | grep -v '^VIOLATION' | head -1 | cut -c1-260)"
 done
 git -C /repo worktree remove --force "$sv/wt"; rm -rf "$sv"
